@@ -242,9 +242,9 @@ type poolRun struct {
 	want        desync.Index // the index of the input
 }
 
-// the batches VerifyIndex hands out (the harness' own arithmetic; the driver checks every batch
-// that travels against the model's regenerated one)
-func poolBatches(c, n int) [][2]int {
+// the batches VerifyIndex hands out: the harness' own arithmetic, used when no driver answers (poolBatches in
+// vibatches.go asks the model for its regenerated ones; the driver checks every batch that travels against them)
+func poolBatchesOwn(c, n int) [][2]int {
 	var out [][2]int
 	batch := c / (n * 10)
 	for i := 0; i < c; i = i + batch + 1 {
@@ -1214,6 +1214,7 @@ func runPoolTraces(cfg Config, rep *Report, fns []string, runs int, salt int64) 
 		fatal(err)
 	}
 	defer m.Close()
+	batchModel = m
 	poolWorkDir = cfg.Work
 	rng := rand.New(rand.NewSource(cfg.Seed*1000003 + salt))
 	for it := 0; it < runs; it++ {
